@@ -26,6 +26,18 @@ PROPS = {
                 level="exploration", faults=True, batch=10),
     "C01": dict(engine="store", gen="gen_c01", nops=(2, 7), runs={"quick": 800, "thorough": 16000},
                 level="exploration", faults=True, batch=10),
+    "C06": dict(engine="store", gen="gen_c06", nops=(2, 6), runs={"quick": 480, "thorough": 9000},
+                level="exploration", batch=8),
+    "C07": dict(engine="store", gen="gen_c07", nops=(3, 9), runs={"quick": 480, "thorough": 9000},
+                level="exploration", batch=8),
+    "C08": dict(engine="store", gen="gen_c08", nops=(3, 8), runs={"quick": 400, "thorough": 8000},
+                level="exploration", batch=6),
+    "C09": dict(engine="store", gen="gen_c09", nops=(4, 4), runs={"quick": 320, "thorough": 6000},
+                level="exploration", batch=6),
+    "C17": dict(engine="store", gen="gen_c17", nops=(2, 6), runs={"quick": 480, "thorough": 9000},
+                level="exploration", faults=True, batch=8),
+    "C18": dict(engine="store", gen="gen_c18", nops=(4, 12), runs={"quick": 480, "thorough": 9000},
+                level="exploration", batch=8),
 }
 
 
@@ -121,6 +133,18 @@ def nontrivial(prop, run):
         return sum(run.faults_fired.values()) > 0
     if prop == "C01":
         return st.get("op:create", 0) > 0
+    if prop == "C06":
+        return st.get("op:create", 0) > 0
+    if prop == "C07":
+        return st.get("op:merge", 0) > 0
+    if prop == "C08":
+        return st.get("op:coarsen", 0) > 0
+    if prop == "C09":
+        return st.get("op:zoomify", 0) > 0
+    if prop == "C17":
+        return st.get("op:scool", 0) > 0
+    if prop == "C18":
+        return st.get("op:rename", 0) > 0
     return True
 
 
